@@ -178,6 +178,8 @@ def rule_substitutions(ctx: Ctx):
     # that parses its argument with lxml)
     table = m.toplevel_assign("cleaners_lookup")
     registered = {v.id for v in table.values if isinstance(v, ast.Name)} if isinstance(table, ast.Dict) else set()
+    html_names = {v.id for k_, v in zip(table.keys, table.values) if isinstance(v, ast.Name) and isinstance(k_, ast.Constant) and k_.value == "html"} \
+        if isinstance(table, ast.Dict) else set()
     for s in m.tree.body:
         if not isinstance(s, ast.FunctionDef) or len(s.args.args) != 1:
             continue
@@ -185,7 +187,7 @@ def rule_substitutions(ctx: Ctx):
         is_sub = len(body) == 1 and isinstance(body[0], ast.Return) and isinstance(body[0].value, ast.Call) and dotted(body[0].value.func) == "re.sub"
         if not is_sub:
             uses_lxml = any(isinstance(x, ast.Attribute) and (dotted(x) or "").startswith("lxml") for x in ast.walk(s))
-            if s.name in registered and not uses_lxml:
+            if s.name in registered and not uses_lxml and s.name not in html_names:
                 n += 1
                 ctx.ob("R-C20-4", f"clean.{s.name}/run-collapse", False,
                        "a text cleaner selectable by name must be a single `return re.sub(<constant>, <constant>, text)` for the run-collapse lemma "
